@@ -5,8 +5,8 @@ package main
 
 import (
 	"fmt"
-	"os"
 	"go/token"
+	"os"
 	"sort"
 	"strings"
 )
